@@ -43,10 +43,13 @@ def _make_paired_pattern(open_re: str, close_re: str, middle_char: str) -> str:
     )
 
 
-# Inline code spans with backticks (handles multi-backtick like ``code``)
+# Inline code spans with backticks (handles multi-backtick like ``code``).
+# The opening delimiter is a whole backtick run (as in CommonMark): trying every shorter
+# prefix of a long run as a delimiter takes time that grows with the fourth power of the
+# run length (a line of 1600 backticks took 45 s).
 INLINE_CODE_SPAN = AtomicPattern(
     name="inline_code_span",
-    pattern=r"(`+)(?:(?!\1).)+\1",
+    pattern=r"(?<!`)(`+)(?!`)(?:(?!\1).)+\1",
     open_delim="",
     close_delim="",
     open_re="",
